@@ -26,10 +26,13 @@ def check_series_has_expected_type(series: pd.Series, internal_type: np.dtype) -
     Bool
 
     """
+    # Narrower floats and integers (float32, int8, uint8, ...) must be widened to the
+    # 64-bit internal types. Otherwise, computations are carried out in the narrow
+    # type, which loses precision or overflows.
     if (internal_type == float) & (is_float_dtype(series)):
-        out = True
+        out = series.dtype == numpy.float64
     elif (internal_type == int) & (is_integer_dtype(series)):
-        out = True
+        out = series.dtype == numpy.int64
     elif (internal_type == bool) & (is_bool_dtype(series)):
         out = True
     elif (internal_type == numpy.datetime64) & (is_datetime64_any_dtype(series)):
